@@ -47,7 +47,10 @@ func genC03(r *rand.Rand, tier string, idx int) *World {
 	}
 	legacy := chance(r, 0.3)
 	if legacy {
-		e.OldDS = "legacy"
+		e.OldDS = pick(r, "legacy", "aaa-old") // sorting after / before the ExtendedDaemonSet's own pods
+		if chance(r, 0.6) {
+			w.Extra["legacySameLabels"] = "1"
+		}
 	}
 	w.EDS = []*EDSDef{e}
 	// weights: mostly old pods, a few of everything else
